@@ -11,8 +11,9 @@ DECIDES = ('non-Bezier input (degree + 1 != number of points), a non-positive el
            '.. min(degree, i) and divides by C(degree + num, i): the index/argument structure of Eq. 5.36 (EQ536); the end rows of the reduced '
            'polygon are the input end rows (END1); the input polygon is never mutated (PU1); in operations.degree_operations the knot vector of every Bezier segment is rebuilt from the segment\'s own knots - no literal stands for an end knot, elevation pads with copies of knot [0] in front and knot [-1] behind (KV2), and the degree of an object is updated before its control points and its knot vector after them (PR1). [SKEL, bounded] every output row of elevation '
            '(degree 1..8 x num 1..4) and of reduction (degree 2..9) is assigned a defined point and no row is consumed before it is computed. [SKEL] every reduced point is computed from exactly the input points that the recurrences of Eq. 5.41 chain together: P_0..P_i for the forward part, P_{i+1}..P_p for the backward part, all of them for the middle point of an odd degree (SK5 dependency footprint).')
-NOT_DECIDED = 'that the assigned values equal the Bernstein-basis identities (binomial blending values), that reduction inverts elevation numerically, floating-point accuracy of binomial quotients.'
+NOT_DECIDED = ('degrees beyond the enumerated ones (elevation 1..4 by 1..3, reduction 2..7); reduction of polygons that are not exactly degree-reducible (the error bound of Eqs. 5.45 / 5.46 is not implemented by the code either); floating-point accuracy of binomial quotients.')
 TECHNIQUE = 'CFG dominance of validation guards, polynomial normal forms of bounds and binomial arguments, kind rule on accumulator shape; bounded index-skeleton interpretation for row coverage'
+DECIDES += (' [ABSTRACT INTERPRETATION, exact] EL2: degree_elevation on symbolic control points is Eq. 5.36 exactly (degrees 1..4 x counts 1..3); degree_reduction applied to the exact elevation of a symbolic polygon returns that polygon (degrees 2..7); FD2: the binomial is not truncated from a float quotient (EQ536, END1 only corroborate).')
 
 
 def site(fi, node=None):
